@@ -760,7 +760,7 @@ def callVal (ctx : Ctx) (f : Val) (args : List Val) : Except Err Val :=
 def lookupVar (ctx : Ctx) (n : String) : Val :=
   match ctx.vars.find? (·.1 == n) with
   | some p => p.2
-  | Option.none => .undef n
+  | Option.none => .undef ""      -- the hint (the name) only feeds error messages, which are not modelled
 
 /- **Reference evaluator**: the value (and hook events) of an expression.  `ae` is the autoescape setting
     in force at run time; in a non-volatile frame it equals `c.autoescape`. -/
